@@ -694,6 +694,23 @@ fn cmd_check(map: &BTreeMap<String, String>) -> i32 {
         let stdout = String::from_utf8_lossy(&out.stdout).to_string();
         let stderr = String::from_utf8_lossy(&out.stderr).to_string();
         let line = stdout.lines().find_map(|l| l.strip_prefix("TSIM-WORKER ")).map(str::to_string);
+        #[cfg(unix)]
+        let signal = std::os::unix::process::ExitStatusExt::signal(&out.status);
+        #[cfg(not(unix))]
+        let signal: Option<i32> = None;
+        if let (None, Some(sig)) = (&line, signal) {
+            // the code under test took the whole process down (abort in a destructor, segfault): a violation
+            // ("no schedule ... panics"), replayed by re-running this worker (a pure function of its arguments)
+            let why = stderr.lines().rev().filter(|l| !l.trim().is_empty()).take(4).collect::<Vec<_>>().into_iter().rev().collect::<Vec<_>>().join(" | ");
+            let j = J::obj()
+                .with("worker", J::us(w))
+                .with("scheduler", J::s(scheduler_name(w)))
+                .with("scheduler_seed", J::u(simcore::prng::mix(&[master, 0xC16, w as u64])))
+                .with("failure", J::s(format!("C16-VIOLATION: process-killed [signal {sig}] while the worker was running its executions: {why}")))
+                .with("failed_at_execution", J::us(per));
+            summaries.push((w, dir, j, 1, stderr));
+            continue;
+        }
         let Some(line) = line else {
             eprintln!("harness error: worker {w} exited with {code} without a summary\n{}", stderr.lines().rev().take(5).collect::<Vec<_>>().join("\n"));
             for w in 0..workers {
@@ -851,6 +868,12 @@ fn cmd_replay(path: &str) -> i32 {
         Ok(o) if o.status.code() == Some(0) => {
             println!("no violation on this tree");
             0
+        }
+        #[cfg(unix)]
+        Ok(o) if std::os::unix::process::ExitStatusExt::signal(&o.status).is_some() => {
+            println!("reproduced by re-running worker {w} for {n} executions: process killed by signal {:?}", std::os::unix::process::ExitStatusExt::signal(&o.status));
+            println!("VIOLATION property=C16 replay={path}");
+            1
         }
         other => {
             eprintln!("harness error: worker re-run failed: {other:?}");
